@@ -139,6 +139,7 @@ class Engine:
         self.maybe_infeasible = False
         self.alts = []  # alternatives discovered on this path
         self.events = []
+        self.fn_cache = {}  # (function name, argument term id) -> (argument term, result): sqrt/floor/ceil are functions
 
     def _add(self, c):
         self.solver.add(c)
@@ -673,9 +674,15 @@ class Sym:
         if self < 0:
             # np.sqrt gives nan (with a warning), math.sqrt raises; both are failures
             raise ValueError("math domain error: sqrt of a negative symbolic value")
+        arg = _simp(self._real(self.e))
+        key = ("sqrt", arg.get_id())
+        if key in E.fn_cache:
+            return E.fn_cache[key][1]
         y = E.aux_real("sqrt")
-        E.define(z3.And(y >= 0, y * y == self._real(self.e)))
-        return Sym(y)
+        E.define(z3.And(y >= 0, y * y == arg))
+        r = Sym(y)
+        E.fn_cache[key] = (arg, r)
+        return r
 
     def ceil(self):
         if self.e.is_int():
@@ -688,9 +695,15 @@ class Sym:
         if self.e.is_int():
             return self
         E = engine()
+        arg = _simp(self.e)
+        key = ("floor", arg.get_id())
+        if key in E.fn_cache:
+            return E.fn_cache[key][1]
         k = E.aux_int("floor")
-        E.define(z3.And(z3.ToReal(k) <= self.e, self.e < z3.ToReal(k) + 1))
-        return Sym(z3.ToReal(k))
+        E.define(z3.And(z3.ToReal(k) <= arg, arg < z3.ToReal(k) + 1))
+        r = Sym(z3.ToReal(k))
+        E.fn_cache[key] = (arg, r)
+        return r
 
     __floor__ = floor
 
@@ -727,16 +740,21 @@ class CeilSym(Sym):
     __slots__ = ("arg", "_e")
 
     def __init__(self, arg):
-        self.arg = arg
+        self.arg = _simp(arg)
         self._e = None
 
     @property
     def e(self):
         if self._e is None:
             E = engine()
-            k = E.aux_int("ceil")
-            E.define(z3.And(z3.ToReal(k) - 1 < self.arg, self.arg <= z3.ToReal(k)))
-            self._e = z3.ToReal(k)
+            key = ("ceil", self.arg.get_id())
+            if key in E.fn_cache:
+                self._e = E.fn_cache[key][1]
+            else:
+                k = E.aux_int("ceil")
+                E.define(z3.And(z3.ToReal(k) - 1 < self.arg, self.arg <= z3.ToReal(k)))
+                self._e = z3.ToReal(k)
+                E.fn_cache[key] = (self.arg, self._e)
         return self._e
 
     @staticmethod
